@@ -30,6 +30,11 @@ def main():
     src = "/tmp/seed/%s/out" % pid
     patch = os.path.join(src, "patch_%s.diff" % x)
     demo = os.path.join(src, "demo_%s.py" % x)
+    kept = os.path.join(VERIF, "seeded", "%s-%s" % (pid, x))
+    if "--from-seeded" in sys.argv or not os.path.exists(patch):
+        patch = os.path.join(kept, "patch.diff")
+        demo = os.path.join(kept, "demo.py")
+        suite = suite and "--suite" in sys.argv
     meta_in = {}
     try:
         meta_in = json.load(open(os.path.join(src, "meta.json"))).get(x, {})
@@ -98,10 +103,17 @@ def main():
             (not suite or not res["suite_missing_stable"])
         res["valid_seed"] = bool(valid)
         out = os.path.join(VERIF, "seeded", "%s-%s" % (pid, x))
-        if valid:
+        if valid and not suite and os.path.exists(os.path.join(out, "meta.json")):
+            # re-check only: keep the recorded suite confirmation, refresh the check result
+            mj = json.load(open(os.path.join(out, "meta.json")))
+            mj["check"] = {"tier": tier, "seed": env2["VERIF_SEED"], "verdict": res["verdict"], "keys": res["check_keys"],
+                           "seconds": res["check_seconds"]}
+            json.dump(mj, open(os.path.join(out, "meta.json"), "w"), indent=1)
+        elif valid:
             os.makedirs(out, exist_ok=True)
-            shutil.copy(patch, os.path.join(out, "patch.diff"))
-            shutil.copy(demo, os.path.join(out, "demo.py"))
+            if os.path.abspath(patch) != os.path.abspath(os.path.join(out, "patch.diff")):
+                shutil.copy(patch, os.path.join(out, "patch.diff"))
+                shutil.copy(demo, os.path.join(out, "demo.py"))
             json.dump({"property": pid, "variant": x,
                        "breaks": meta_in.get("summary"), "needs_to_manifest": meta_in.get("needs"),
                        "agent_ran": meta_in.get("ran"),
